@@ -459,9 +459,12 @@ def run_history(hist):
         def ref(kind, oid):
             r = orc.rec(kind, oid)
             got = refs.get((kind, oid))
-            if r is None or got is None or got[1] != r['gen']:
-                return None, None
-            return got[0], r
+            if r is not None and got is not None and got[1] == r['gen']:
+                return got[0], r
+            if r is not None and r['gen'] in objs:
+                # appeared and went away within one read: the caller only knows it from a notification
+                return objs[r['gen']], r
+            return None, None
 
         def check_notifications(groups, mark, where):
             """groups: [(rec, notes)] one per event, in order; log[mark:] is what the listeners saw"""
